@@ -621,6 +621,88 @@ def r_num(prog, R):
     r.require(n >= 2, "no numeric conversions found in the configuration parsers (anchor drift)")
 
 
+LINE_LOOPS = ("ares_lookup_hostaliases", "ares_parse_hosts", "ares_sysconfig_process_buf")
+LINE_COMMITS = ("ares_strdup", "ares_hosts_file_add")
+
+
+def r_lineloop(prog, R):
+    r = R.rule("R-C15-LINELOOP", "the loops that walk a configuration file line by line are left early only at the end of the input, on an allocation failure, or once a line "
+               "has produced its result: a malformed line is skipped, it never ends the scan", floor=3,
+               analysis="loop-exit vocabulary (dominating facts / committed-result calls at every early exit)")
+    for name in LINE_LOOPS:
+        f = prog.func(name)
+        loops = f.natural_loops()
+        if not r.require(bool(loops), "%s: line loop not found" % name):
+            continue
+        # outermost loop
+        h, body = max(loops.items(), key=lambda kv: len(kv[1]))
+        mf = MustFacts(f, track_calls=True)
+        bad = None
+        nexits = 0
+        for bid in sorted(body):
+            if bid == h:
+                continue
+            blk = f.blocks[bid]
+            br = f.branch(blk)
+            for s2 in f.succ(bid):
+                if s2 in body:
+                    continue
+                nexits += 1
+                at = len(blk.els)
+                facts = list(mf.cond_facts_at(bid, at))
+                if br:
+                    facts += atoms(br[0], br[1] == s2)
+                ok = False
+                for c3, p3 in facts:
+                    op, l3, r3 = norm_cmp(c3, p3)
+                    ls = strip(l3)
+                    # allocation failure
+                    if op == "==" and r3 is not None and name_of_const(r3) == "ARES_ENOMEM":
+                        ok = True
+                    if (op == "==" and r3 is not None and is_null(r3)) or (op == "false" and r3 is None):
+                        # a NULL test of something assigned from an allocating call in this function
+                        tgt = render(ls)
+                        for _, _, e2 in f.elements():
+                            if e2["k"] == "asg" and render(strip(e2["e"]["l"])) == tgt:
+                                rr = strip(e2["e"].get("r"))
+                                if rr is not None and rr.get("k") == "call":
+                                    full = f.call_by_id(rr["id"]) if rr.get("ref") else None
+                                    cn = full[2] if full else rr
+                                    if cn.get("callee") in ALLOC_ONLY:
+                                        ok = True
+                    # end of input
+                    if ls is not None and ls.get("k") == "call":
+                        full = f.call_by_id(ls["id"]) if ls.get("ref") else None
+                        cn = full[2] if full else ls
+                        if cn.get("callee") == "ares_buf_len" and ((op == "==" and r3 is not None and const_val(r3) == 0) or op == "false"):
+                            ok = True
+                if not ok:
+                    # a result was produced in this iteration (must-passed call; facts at the loop header do not include it) ...
+                    passed = {fk[1] for fk in mf.facts_at(bid, at) if fk[0] == "call"}
+                    hdr = {fk[1] for fk in mf.facts_at(h, 0) if fk[0] == "call"}
+                    if (passed - hdr) & (set(LINE_COMMITS) | {"<indirect>"}):
+                        ok = True
+                    # ... or is produced by the code the exit leads to (straight-line tail up to the next join)
+                    t = s2
+                    hops = 0
+                    while t is not None and not ok and hops < 6:
+                        tb = f.blocks[t]
+                        if any(e2["k"] == "call" and e2["e"].get("callee") in LINE_COMMITS for e2 in tb.els):
+                            ok = True
+                        nxt = [x for x in tb.succs if x is not None]
+                        t = nxt[0] if len(nxt) == 1 and len(f.blocks[nxt[0]].preds) == 1 else None
+                        hops += 1
+                if not ok:
+                    bad = (blk, s2, facts)
+        k = "fn=%s leaves the line loop only at end of input / out of memory / with a result" % name
+        if bad:
+            blk = bad[0]
+            r.viol(k, name, f.loc((blk.term or {}).get("ln") or (blk.els[-1].get("ln") if blk.els else f.ln)), "%s can leave its line loop under [%s]: not the end of the input, not an allocation failure and no line has produced a result -- a malformed line hides every later valid line" % (
+                name, ", ".join(("" if p3 else "!") + render(c3) for c3, p3 in bad[2][-3:])))
+        else:
+            r.ok(k, f.loc(f.ln), "%d early exits" % nexits)
+
+
 def run(prog, R, tier):
     R.assume("callees are given valid (non-NULL) pointers by the configuration parsers (defensive NULL-argument returns are not part of the return sets)")
     ownrules.own_rule(prog, R, "R-C15-OWN", FILES, floor=30)
@@ -632,3 +714,4 @@ def run(prog, R, tier):
     r_split(prog, R)
     r_empty(prog, R)
     r_num(prog, R)
+    r_lineloop(prog, R)
